@@ -1,10 +1,10 @@
 #!/bin/bash
 # usage: tools/applycheck.sh <patch.diff> <ID> [check args]  -- apply a patch to a scratch worktree of /repo HEAD and run a check against it
 set -u
-P=$1; ID=$2; shift 2
+P=$(readlink -f $1); ID=$2; shift 2
 WT=/tmp/ac-wt-$$
 git -C /repo worktree add --detach -f $WT HEAD >/dev/null 2>&1
-if ! git -C $WT apply "$P" 2>/dev/null; then echo "$(basename $P): PATCH-DOES-NOT-APPLY"; else
+if ! git -C $WT apply "$P" 2>/dev/null; then echo "$(basename $(dirname $P)): PATCH-DOES-NOT-APPLY"; else
 cd /verif && out=$(./check $ID --repo $WT --no-evidence "$@" 2>&1 | grep -v KNOWN-FINDING | grep -v "^NOTE")
-echo "$(basename $P) [$ID]: $(echo "$out" | head -2 | tr '\n' ' ' | cut -c1-330)"; fi
+echo "$(basename $(dirname $P))/$(basename $P) [$ID]: $(echo "$out" | head -2 | tr '\n' ' ' | cut -c1-330)"; fi
 git -C /repo worktree remove --force $WT >/dev/null 2>&1; git -C /repo worktree prune
